@@ -398,6 +398,42 @@ func (c *Ctx) c03setsIn(f *ssa.Function, org func(ssa.Value) string) *c03Sets {
 			}
 		}
 	}
+	// a path set built by an unexported helper from one artifact map: Set helper(map[string]HashObj)
+	for _, via := range allCalls(f) {
+		g := via.Common().StaticCallee()
+		if g == nil || g == f || g.Blocks == nil || g.Pkg != f.Pkg || g.Object() == nil || g.Object().Exported() || len(g.Params) != 1 {
+			continue
+		}
+		if rs := resultTypes(g); len(rs) != 1 || rs[0] != "in_toto.Set" || typeStr(g.Params[0].Type()) != "map[string]in_toto.HashObj" {
+			continue
+		}
+		argOrg := org(via.Common().Args[0])
+		inner := c.c03setsIn(g, func(v ssa.Value) string { return orgSubst(v, map[*ssa.Parameter]string{g.Params[0]: argOrg}) })
+		var set ssa.Value
+		isMat := false
+		switch {
+		case inner.materialPaths != nil && inner.productPaths == nil:
+			set, isMat = inner.materialPaths, true
+		case inner.productPaths != nil && inner.materialPaths == nil:
+			set = inner.productPaths
+		default:
+			continue
+		}
+		all := len(returnsOf(g)) > 0
+		for _, r := range returnsOf(g) {
+			if resolve(r.Results[0], r) != resolve(set, nil) {
+				all = false
+			}
+		}
+		if !all {
+			continue
+		}
+		if isMat {
+			s.materialPaths = via.Value()
+		} else {
+			s.productPaths = via.Value()
+		}
+	}
 	for _, call := range allCalls(f) {
 		n := calleeName(call)
 		a := call.Common().Args
@@ -472,39 +508,29 @@ func ruleC03_5(c *Ctx) {
 	c.check(s.deleted != nil, R, fn, "deleted = materials \\ products", f.Pos(), "materialPaths.Difference(productPaths)", "no set computed as materials minus products")
 	c.check(s.remained != nil && s.modified != nil, R, fn, "modified = names in both with different hash objects", f.Pos(), "Add under !DeepEqual(materials[n], products[n]) for n in materials ∩ products", "no set of names present on both sides whose hash objects differ")
 	// the two rounds pair rules / artifacts / paths of the same kind
+	recs := c03rounds(f)
 	rounds := 0
-	for _, b := range f.Blocks {
-		for _, in := range b.Instrs {
-			mk, ok := in.(*ssa.MakeMap)
-			if !ok || typeStr(mk.Type()) != "map[string]interface{}" {
-				continue
-			}
-			vals := map[string]ssa.Value{}
-			for _, r := range *mk.Referrers() {
-				if mu, ok := r.(*ssa.MapUpdate); ok {
-					if k, ok := constString(mu.Key); ok {
-						vals[k] = mu.Value
-					}
-				}
-			}
-			if vals["srcType"] == nil {
-				continue
-			}
-			rounds++
-			kind, _ := constString(resolve(vals["srcType"], nil))
-			fieldRules, fieldArt, paths := "ExpectedMaterials", ".Materials", s.materialPaths
-			if kind == "products" {
-				fieldRules, fieldArt, paths = "ExpectedProducts", ".Products", s.productPaths
-			}
-			okPair := kind == "materials" || kind == "products"
-			okPair = okPair && strings.Contains(org(vals["rules"]), "."+fieldRules) &&
-				strings.HasSuffix(org(vals["artifacts"]), fieldArt) && resolve(vals["artifactPaths"], nil) == paths
-			if kind == "materials" && strings.Contains(org(vals["rules"]), "ExpectedProducts") || kind == "products" && strings.Contains(org(vals["rules"]), "ExpectedMaterials") {
-				okPair = false
-			}
-			c.check(okPair, R, fn, "verification round "+kind, mk.Pos(), "rules="+fieldRules+", artifacts="+fieldArt+", queue=the "+kind+" path set",
-				"the "+kind+" round pairs rules "+short(org(vals["rules"]))+" with artifacts "+short(org(vals["artifacts"])))
+	pathsKey, artifactsKey := "", ""
+	for _, rc := range recs {
+		rounds++
+		kind := rc.kind
+		fieldRules, fieldArt, paths := "ExpectedMaterials", ".Materials", s.materialPaths
+		if kind == "products" {
+			fieldRules, fieldArt, paths = "ExpectedProducts", ".Products", s.productPaths
 		}
+		okPair := kind == "materials" || kind == "products"
+		okPair = okPair && rc.rules != nil && rc.artifacts != nil && rc.paths != nil && strings.Contains(org(rc.rules), "."+fieldRules) &&
+			strings.HasSuffix(org(rc.artifacts), fieldArt) && resolve(rc.paths, nil) == resolve(paths, nil)
+		if rc.rules != nil && (kind == "materials" && strings.Contains(org(rc.rules), "ExpectedProducts") || kind == "products" && strings.Contains(org(rc.rules), "ExpectedMaterials")) {
+			okPair = false
+		}
+		if pathsKey == "" {
+			pathsKey, artifactsKey = rc.pathsKey, rc.artifactsKey
+		} else if pathsKey != rc.pathsKey || artifactsKey != rc.artifactsKey {
+			okPair = false
+		}
+		c.check(okPair, R, fn, "verification round "+kind, rc.pos, "rules="+fieldRules+", artifacts="+fieldArt+", queue=the "+kind+" path set",
+			"the "+kind+" round pairs rules "+short(org(rc.rules))+" with artifacts "+short(org(rc.artifacts)))
 	}
 	c.check(rounds == 2, R, fn, "two verification rounds", f.Pos(), "materials and products", fmt.Sprintf("%d rounds", rounds))
 	// the queue phi
@@ -529,13 +555,34 @@ func ruleC03_5(c *Ctx) {
 							isHeader = true
 						}
 					}
-					if isHeader && derives(ph, func(v ssa.Value) bool {
-						return strings.HasSuffix(org(v), `{const("artifactPaths")}.(in_toto.Set)`)
+					if isHeader && pathsKey != "" && derives(ph, func(v ssa.Value) bool {
+						return c03roundAccess(v) == pathsKey
 					}, false) {
 						queue = ph
 					}
 				}
 			}
+		}
+	}
+	// inside the rounds nothing edits a set in place: the queue starts as the round's path set itself (no copy), and the
+	// path sets feed the created / deleted / modified classification of the other round
+	for _, call := range allCalls(f) {
+		n := genericBase(calleeName(call))
+		tgt := -1
+		switch n {
+		case "(in_toto.Set).Add", "(in_toto.Set).Remove", "builtin:delete", "builtin:clear", "maps.DeleteFunc", "maps.Copy":
+			tgt = 0
+		}
+		if tgt < 0 || len(recs) == 0 || recs[0].blk == nil || !(recs[0].blk == call.Block() && false || recs[0].blk.Dominates(call.Block()) && recs[0].blk != call.Block()) {
+			continue
+		}
+		t := resolve(call.Common().Args[tgt], call)
+		if ci, ok := t.(*ssa.ChangeType); ok {
+			t = resolve(ci.X, call)
+		}
+		shared := (queue != nil && t == ssa.Value(queue)) || t == resolve(s.materialPaths, nil) || t == resolve(s.productPaths, nil) || (pathsKey != "" && c03roundAccess(t) == pathsKey)
+		if shared {
+			c.bad(R, fn, "in-place edit of a path set inside the rounds", call.Pos(), n+" on "+short(org(t))+": the queue is the round's path set itself, which the other round's CREATE / DELETE / MODIFY classification reads; consumed artifacts must be removed by replacing the queue (queue = queue.Difference(consumed))")
 		}
 	}
 	if queue == nil {
@@ -549,7 +596,7 @@ func ruleC03_5(c *Ctx) {
 		pb := queue.Block().Preds[i]
 		if !queue.Block().Dominates(pb) {
 			// initial value: the round's artifactPaths
-			okInit := strings.HasSuffix(org(e), `{const("artifactPaths")}.(in_toto.Set)`)
+			okInit := pathsKey != "" && c03roundAccess(resolve(e, nil)) == pathsKey
 			c.check(okInit, R, fn, "queue starts as the round's path set", queue.Pos(), short(org(e)), "initial queue is "+short(org(e)))
 			continue
 		}
@@ -573,7 +620,7 @@ func ruleC03_5(c *Ctx) {
 	}
 	if mr := firstCall(f, "in_toto.verifyMatchRule"); mr != nil {
 		a := mr.Common().Args
-		okM := a[2] == ssa.Value(queue) && strings.HasSuffix(org(a[1]), `{const("artifacts")}.(map[string]in_toto.HashObj)`) && org(a[3]) == "p1" && strings.HasSuffix(org(a[0]), "#0")
+		okM := a[2] == ssa.Value(queue) && artifactsKey != "" && c03roundAccess(resolve(a[1], mr)) == artifactsKey && org(a[3]) == "p1" && strings.HasSuffix(org(a[0]), "#0")
 		c.check(okM, R, fn, "MATCH operates on the live queue, the round's artifacts and all verified links", mr.Pos(), "verifyMatchRule(ruleData, artifacts, queue, itemsMetadata)", "MATCH helper receives "+short(org(a[1]))+", "+short(org(a[2]))+", "+short(org(a[3])))
 	}
 	// per-type consumption wiring
@@ -890,6 +937,37 @@ func ruleC03_9(c *Ctx) {
 			}, false)
 		}
 	}
+	// the same through a one-argument string helper: ruleData[<const key>] = helper(ruleData[<same key>]), where the helper
+	// appends "/" unless its result already ends in one
+	if !okSlash {
+		allHelpers := true
+		for _, b := range f.Blocks {
+			for _, in := range b.Instrs {
+				mu, ok := in.(*ssa.MapUpdate)
+				if !ok || org(mu.Map) != "p0" {
+					continue
+				}
+				key, isK := constString(mu.Key)
+				if !isK || (key != "srcPrefix" && key != "dstPrefix") {
+					continue
+				}
+				hc, ok := resolve(mu.Value, mu).(*ssa.Call)
+				if !ok {
+					continue
+				}
+				g := hc.Common().StaticCallee()
+				if g == nil || g.Blocks == nil || g.Pkg != f.Pkg || len(g.Params) != 1 || len(hc.Call.Args) != 1 || org(hc.Call.Args[0]) != `p0{const("`+key+`")}` {
+					continue
+				}
+				if c.slashNormaliser(g) {
+					names = append(names, key)
+				} else {
+					allHelpers = false
+				}
+			}
+		}
+		okSlash = allHelpers && len(names) == 2
+	}
 	sort.Strings(names)
 	c.check(okSlash && strings.Join(names, ",") == "dstPrefix,srcPrefix", R, fn, "non-empty prefixes end in a slash", f.Pos(), "ruleData[p] += \"/\" unless it already ends in one, for srcPrefix and dstPrefix", "the MATCH prefixes are not normalised to end in \"/\" (prefixes normalised: "+strings.Join(names, ",")+"): the prefix test is a plain string-prefix test, so `IN src` also covers `srcgen/x`")
 	// the matched path is exactly TrimPrefix(srcPath, srcPrefix)
@@ -913,4 +991,207 @@ func ruleC03_9(c *Ctx) {
 		}
 	}
 	c.check(okHP, R, fn, "prefix membership is tested on the queue element with the normalised prefix", f.Pos(), "strings.HasPrefix(srcPath, ruleData[srcPrefix])", "no membership test of the queue element against the normalised source prefix")
+}
+
+// slashNormaliser: every return of the one-argument string function g hands back "" for an empty argument or a value that
+// ends in "/": the value itself where strings.HasSuffix(value, "/") is known true, value + "/" where it is known false.
+func (c *Ctx) slashNormaliser(g *ssa.Function) bool {
+	rets := returnsOf(g)
+	if len(rets) == 0 {
+		return false
+	}
+	endsInSlash := func(v ssa.Value, blk *ssa.BasicBlock, depth int) bool { return false }
+	var rec func(v ssa.Value, blk *ssa.BasicBlock, depth int) bool
+	rec = func(v ssa.Value, blk *ssa.BasicBlock, depth int) bool {
+		if depth > 4 {
+			return false
+		}
+		if bo, ok := v.(*ssa.BinOp); ok && bo.Op == token.ADD {
+			if s, isS := constString(bo.Y); isS && strings.HasSuffix(s, "/") {
+				return true
+			}
+		}
+		for _, hs := range callsIn(g, "strings.HasSuffix") {
+			if s, isS := constString(hs.Common().Args[1]); isS && s == "/" && resolve(hs.Common().Args[0], hs) == resolve(v, nil) && c.condAt(hs.Value(), true, blk) {
+				return true
+			}
+		}
+		if ph, ok := v.(*ssa.Phi); ok {
+			for i, e := range ph.Edges {
+				if !rec(e, ph.Block().Preds[i], depth+1) {
+					// the edge may carry the value under a HasSuffix-true edge fact
+					okEdge := false
+					for _, hs := range callsIn(g, "strings.HasSuffix") {
+						if s, isS := constString(hs.Common().Args[1]); isS && s == "/" && resolve(hs.Common().Args[0], hs) == resolve(e, nil) && edgeFact(ph.Block().Preds[i], ph.Block(), hs.Value(), true) {
+							okEdge = true
+						}
+					}
+					if !okEdge {
+						return false
+					}
+				}
+			}
+			return len(ph.Edges) > 0
+		}
+		return false
+	}
+	_ = endsInSlash
+	for _, r := range rets {
+		v := resolve(r.Results[0], r)
+		if s, isS := constString(v); isS && s == "" {
+			continue
+		}
+		if !rec(v, r.Block(), 0) {
+			return false
+		}
+	}
+	return true
+}
+
+// c03Round is one record of the rounds table of VerifyArtifacts: a map[string]interface{} literal with constant keys,
+// or a struct literal, as an element of the slice literal that the rounds loop ranges over. Roles are found by type.
+type c03Round struct {
+	kind                    string
+	rules, artifacts, paths ssa.Value
+	pathsKey, artifactsKey  string // how the loop body reads the role: "key:<k>" or "field:<name>"
+	pos                     token.Pos
+	blk                     *ssa.BasicBlock
+}
+
+func c03roundFromFields(vals map[string]ssa.Value, prefix string, pos token.Pos, blk *ssa.BasicBlock) (c03Round, bool) {
+	rc := c03Round{pos: pos, blk: blk}
+	names := make([]string, 0, len(vals))
+	for k := range vals {
+		names = append(names, k)
+	}
+	sort.Strings(names)
+	for _, k := range names {
+		v := vals[k]
+		rv := resolve(v, nil)
+		if mi, ok := rv.(*ssa.MakeInterface); ok {
+			rv = resolve(mi.X, nil)
+		}
+		switch typeStr(rv.Type()) {
+		case "[][]string":
+			rc.rules = rv
+		case "map[string]in_toto.HashObj":
+			rc.artifacts, rc.artifactsKey = rv, prefix+k
+		case "in_toto.Set":
+			rc.paths, rc.pathsKey = rv, prefix+k
+		case "string":
+			if ks, ok := constString(rv); ok && (ks == "materials" || ks == "products") {
+				rc.kind = ks
+			}
+		}
+	}
+	if rc.rules == nil && rc.artifacts == nil && rc.paths == nil {
+		return rc, false
+	}
+	if rc.kind == "" && rc.rules != nil {
+		if strings.Contains(org(rc.rules), ".ExpectedMaterials") {
+			rc.kind = "materials"
+		} else if strings.Contains(org(rc.rules), ".ExpectedProducts") {
+			rc.kind = "products"
+		}
+	}
+	return rc, true
+}
+
+func c03rounds(f *ssa.Function) []c03Round {
+	var out []c03Round
+	// map literals
+	for _, b := range f.Blocks {
+		for _, in := range b.Instrs {
+			mk, ok := in.(*ssa.MakeMap)
+			if !ok || typeStr(mk.Type()) != "map[string]interface{}" {
+				continue
+			}
+			vals := map[string]ssa.Value{}
+			for _, r := range *mk.Referrers() {
+				if mu, ok := r.(*ssa.MapUpdate); ok {
+					if k, ok := constString(mu.Key); ok {
+						vals[k] = mu.Value
+					}
+				}
+			}
+			if rc, ok := c03roundFromFields(vals, "key:", mk.Pos(), mk.Block()); ok {
+				out = append(out, rc)
+			}
+		}
+	}
+	// struct literals stored into the elements of a slice literal
+	type elemKey struct {
+		al  *ssa.Alloc
+		idx int64
+	}
+	recs := map[elemKey]map[string]ssa.Value{}
+	pos := map[elemKey]token.Pos{}
+	blks := map[elemKey]*ssa.BasicBlock{}
+	var order []elemKey
+	for _, b := range f.Blocks {
+		for _, in := range b.Instrs {
+			st, ok := in.(*ssa.Store)
+			if !ok {
+				continue
+			}
+			fa, ok := st.Addr.(*ssa.FieldAddr)
+			if !ok {
+				continue
+			}
+			ia, ok := fa.X.(*ssa.IndexAddr)
+			if !ok {
+				continue
+			}
+			al, ok := ia.X.(*ssa.Alloc)
+			if !ok || al.Comment != "slicelit" {
+				continue
+			}
+			k, ok := constInt(ia.Index)
+			if !ok {
+				continue
+			}
+			ek := elemKey{al, k}
+			if recs[ek] == nil {
+				recs[ek] = map[string]ssa.Value{}
+				pos[ek] = st.Pos()
+				blks[ek] = st.Block()
+				order = append(order, ek)
+			}
+			recs[ek][fieldName(fa.X.Type(), fa.Field)] = st.Val
+		}
+	}
+	for _, ek := range order {
+		if rc, ok := c03roundFromFields(recs[ek], "field:", pos[ek], blks[ek]); ok && rc.rules != nil {
+			out = append(out, rc)
+		}
+	}
+	return out
+}
+
+// c03roundAccess: v reads one member of a rounds record: "key:<k>" for record[<k>].(T), "field:<name>" for record.<name>.
+func c03roundAccess(v ssa.Value) string {
+	for i := 0; i < 6; i++ {
+		switch x := v.(type) {
+		case *ssa.Extract:
+			v = x.Tuple
+			continue
+		case *ssa.TypeAssert:
+			v = x.X
+			continue
+		case *ssa.Lookup:
+			if k, ok := constString(x.Index); ok {
+				return "key:" + k
+			}
+			return ""
+		case *ssa.UnOp:
+			if fa, ok := x.X.(*ssa.FieldAddr); ok {
+				return "field:" + fieldName(fa.X.Type(), fa.Field)
+			}
+			return ""
+		case *ssa.Field:
+			return "field:" + fieldName(x.X.Type(), x.Field)
+		}
+		break
+	}
+	return ""
 }
